@@ -8,7 +8,7 @@ leaked `&'static` formatter.  One call = one atomic `step`.
 
 Model: the per-kind two-level `HashMap<locale, HashMap<options, &'static F>>` is flattened into one association
 list from keys `(kind, locale, options)` to formatter ids; `make key` is the abstract ICU formatter built for that
-key (a parameter: ICU4X is the oracle).  Entries are never removed or overwritten (the formatters are leaked).
+key, or `none` when ICU4X refuses the options (a parameter: ICU4X is the oracle).  Entries are never removed or overwritten (the formatters are leaked).
 -/
 namespace I18nVerif.FormatCache
 
@@ -33,24 +33,47 @@ def lookup [DecidableEq κ] (k : κ) : State κ ι → Option ι
   | [] => none
   | (k', v) :: rest => if k' = k then some v else lookup k rest
 
-/-- one `get_*_formatter` call under the write lock: `entry(k).or_insert_with(|| make k)` -/
-def step [DecidableEq κ] (make : κ → ι) (st : State κ ι) (k : κ) : State κ ι × ι :=
+/-- one `get_*_formatter` call under the write lock: `entry(k).or_insert_with(|| make(k).expect(..))`.
+`make k = none`: ICU4X refuses to build the formatter (e.g. `TimeFormatter` with `length::Time::Full`, which needs a
+time zone) and the `expect` **panics** — outcome `none`. The panic unwinds out of `or_insert_with` before anything is
+inserted, and `with_mut` takes the lock again even when an earlier holder panicked (`PoisonError::into_inner`), so
+the state is unchanged and later calls are unaffected. -/
+def step [DecidableEq κ] (make : κ → Option ι) (st : State κ ι) (k : κ) : State κ ι × Option ι :=
   match lookup k st with
-  | some v => (st, v)
-  | none => ((k, make k) :: st, make k)
+  | some v => (st, some v)
+  | none =>
+    match make k with
+    | some v => ((k, v) :: st, some v)
+    | none => (st, none)
 
 /-- a sequence of calls (any interleaving of the calls of any number of threads is such a sequence, since each
-call holds the write lock from lookup to insertion): final state and the formatter returned to each call -/
-def run [DecidableEq κ] (make : κ → ι) : State κ ι → List κ → State κ ι × List ι
+call holds the write lock from lookup to insertion): final state and the outcome of each call
+(`some` formatter / `none` = panic) -/
+def run [DecidableEq κ] (make : κ → Option ι) : State κ ι → List κ → State κ ι × List (Option ι)
   | st, [] => (st, [])
   | st, k :: ks =>
     let (st1, v) := step make st k
     let (st2, vs) := run make st1 ks
     (st2, v :: vs)
 
-/-- was the formatter for the i-th request created by that request (miss) or found (hit)? -/
-def runHits [DecidableEq κ] (make : κ → ι) : State κ ι → List κ → List Bool
+/-- was the formatter for the i-th request found in the cache (hit) or not (miss)? -/
+def runHits [DecidableEq κ] (make : κ → Option ι) : State κ ι → List κ → List Bool
   | _, [] => []
   | st, k :: ks => (lookup k st).isSome :: runHits make (step make st k).1 ks
+
+/-! The behaviour before the repair (`mutex.write().unwrap()`): a panic inside `with_mut` poisons the `RwLock`, and every
+later call — for any kind, locale or options — panics on the `PoisonError`. Kept as the witness of the defect. -/
+def stepPoisoning [DecidableEq κ] (make : κ → Option ι) (st : State κ ι × Bool) (k : κ) : (State κ ι × Bool) × Option ι :=
+  if st.2 then (st, none) else
+  match lookup k st.1 with
+  | some v => (st, some v)
+  | none =>
+    match make k with
+    | some v => (((k, v) :: st.1, false), some v)
+    | none => ((st.1, true), none)
+
+def runPoisoning [DecidableEq κ] (make : κ → Option ι) : State κ ι × Bool → List κ → List (Option ι)
+  | _, [] => []
+  | st, k :: ks => (stepPoisoning make st k).2 :: runPoisoning make (stepPoisoning make st k).1 ks
 
 end I18nVerif.FormatCache
